@@ -149,7 +149,9 @@ add("ColumnEnsembleClassifier.set_params(estimators=L, <component or component__
     "on the private alias `_estimators`, so the whole list `estimators` is applied as an ordinary parameter in "
     "the LAST phase and the component keys act on the OLD components - not the documented order whole list -> "
     "component -> component parameter",
-    {"kind": "tree_set", "clause_re": "^(nested-set|valid-set-rejected|unknown-name)",
+    # "correspondence": on exactly these inputs the value-tree model cannot follow scikit-learn's
+    # aliasing (nested keys act on the objects listed BEFORE `estimators` was reassigned)
+    {"kind": "tree_set", "clause_re": "^(nested-set|valid-set-rejected|unknown-name|correspondence)",
      "where": {"colens_list_with_other": True, "tree.cls": "ColumnEnsembleClassifier"}}, "notes/C04-fix-9.diff")
 
 json.dump(F, open("/verif/findings.d/C04.json", "w"), indent=1)
